@@ -85,7 +85,7 @@ func notifierTokens(fn *ssa.Function) []string {
 }
 
 func c10(c *core.Ctx) {
-	c.Explain("C10 (session queue): decided statically — R1 conservation pairing: every removal of an element from the memory list or the redis list is, on the same path, reported through NotifyDropped or handed out in the result (or is the explicit Remove(id)); R2 the memory and the redis implementation emit the same set of notifier effects (method, drop reason / delta sign) for every method of queue.Store; R3 insertion is append-only and the cursor is never walked through an unlinked element (C01.R2), R4 expired and oversize elements never reach the result (C12.R1, C13.R1); R6 drop ladder guards: the front unread message is sacrificed only once the in-flight replay is drained, and in the redis scan an element is classified in-flight strictly by index < cursor; R7 Remove/Replace act only on the in-flight prefix.")
+	c.Explain("C10 (session queue): decided statically — R1 conservation pairing: every removal of an element from the memory list or the redis list is, on the same path, reported through NotifyDropped or handed out in the result (or is the explicit Remove(id)); R2 the memory and the redis implementation emit the same set of notifier effects (method, drop reason / delta sign) for every method of queue.Store; R3 insertion is append-only and the cursor is never walked through an unlinked element (C01.R2), R4 expired and oversize elements never reach the result (C12.R1, C13.R1); R6 drop ladder guards: the front unread message is sacrificed only once the in-flight replay is drained, and in the redis scan an element is classified in-flight strictly by index < cursor; R7 Remove/Replace act only on the in-flight prefix. Added in the second round: Remove(id) moves the counters only after an unlink; a packet id is assigned only to a message that is then handed out; the newcomer's QoS 0 is considered only after the scan for a better victim; ids are searched by equality.")
 	c.NotDecided("capacity bound, full drop-priority order and counter accuracy over histories (numeric / runtime data)")
 	p := c.P
 	memQ, redQ := "persistence/queue/mem", "persistence/queue/redis"
